@@ -37,6 +37,8 @@ func init() {
 	wrap("C20", c20CasTokenForwarded)
 	wrap("C03", c03RootNotPublishedEarly)
 	wrap("C22", c22AsOfTimeAtTxRoot)
+	wrap("C22", c22SnapshotScope)
+	Registry["C22"].Patterns = append(Registry["C22"].Patterns, "./libraries/doltcore/doltdb")
 	wrap("C33", c33NamedDatabaseAndCommitIndex)
 	Registry["C20"].Patterns = append(Registry["C20"].Patterns, "./libraries/doltcore/doltdb")
 	Registry["C24"].Patterns = append(Registry["C24"].Patterns, "./libraries/doltcore/env/actions")
@@ -729,6 +731,97 @@ func c33NamedDatabaseAndCommitIndex(k *eng.Check) {
 		}
 		if n < 1 {
 			k.Unknown("history-index-at-commit", eng.Name(fn), "the IndexedAccess call", "not found")
+		}
+	}
+}
+
+// c22SnapshotScope: (a) the transaction snapshots every database under management: the databases handed to
+// NewDoltTransaction are collected by ranging over the provider's DoltDatabases() (possibly through one helper that
+// returns that list unfiltered); a database added lazily gets the root of the moment it is first referenced.
+// (b) a commit spec resolved "at a noms root" never falls back to the live datasets: in getHashFromCommitSpec the live
+// resolver is reachable only where the given root is empty.
+func c22SnapshotScope(k *eng.Check) {
+	c := k.C
+	isAllDbs := func(v ssa.Value, depth int) bool { return false }
+	isAllDbs = func(v ssa.Value, depth int) bool {
+		call, ok := eng.Origin(v).(*ssa.Call)
+		if !ok {
+			return false
+		}
+		if strings.HasSuffix(eng.CalleeName(call), ".DoltDatabases") {
+			return true
+		}
+		// one helper level: every value it returns is itself the provider's list
+		if h := call.Call.StaticCallee(); h != nil && depth < 1 && len(h.Blocks) > 0 {
+			n := 0
+			for _, b := range h.Blocks {
+				for _, in := range b.Instrs {
+					if ret, isRet := in.(*ssa.Return); isRet && len(ret.Results) > 0 {
+						if !isAllDbs(ret.Results[0], depth+1) {
+							return false
+						}
+						n++
+					}
+				}
+			}
+			return n > 0
+		}
+		return false
+	}
+	if fn := k.Fn("(*libraries/doltcore/sqle/dsess.DoltSession).StartTransaction"); fn != nil {
+		n := 0
+		for _, call := range eng.Calls(fn, eng.Static("libraries/doltcore/sqle/dsess.NewDoltTransaction"), false) {
+			for _, a := range call.Common().Args {
+				if !strings.HasSuffix(eng.ShortType(a.Type()), "[]libraries/doltcore/sqle/dsess.SqlDatabase") {
+					continue
+				}
+				n++
+				// the slice is filled by appends of the element of a range over the provider's list
+				ok, seen := true, 0
+				eng.Slice(a, true, func(x ssa.Value) bool {
+					if nx, isNext := x.(*ssa.Next); isNext {
+						if rg, isR := nx.Iter.(*ssa.Range); isR {
+							seen++
+							if !isAllDbs(rg.X, 0) {
+								ok = false
+							}
+						}
+					}
+					if ix, isIdx := x.(*ssa.IndexAddr); isIdx {
+						if _, isConstIdx := ix.Index.(*ssa.Const); !isConstIdx && eng.ShortType(ix.X.Type()) == eng.ShortType(a.Type()) {
+							seen++
+							if !isAllDbs(ix.X, 0) {
+								ok = false
+							}
+						}
+					}
+					return false
+				})
+				k.Require("tx-snapshot-covers-all-dbs", eng.Name(fn)+"#databases", "the databases given a start point are collected from the provider's full DoltDatabases() list", ok && seen > 0, c.InstrPos(call.(ssa.Instruction)), "the list of snapshotted databases is not (only) drawn from DoltDatabases(): a database left out is pinned at its first reference, not at transaction start")
+			}
+		}
+		if n < 1 {
+			k.Unknown("tx-snapshot-covers-all-dbs", eng.Name(fn), "the database list handed to NewDoltTransaction", "not found")
+		}
+	}
+	if fn := k.Fn("(*libraries/doltcore/doltdb.DoltDB).getHashFromCommitSpec"); fn != nil {
+		mLive := eng.Static("(*libraries/doltcore/doltdb.DoltDB).GetHashForRefStr")
+		n := 0
+		for _, g := range eng.WithAnons(fn) {
+			live := eng.CallSet(g, mLive)
+			if live.Len() == 0 {
+				continue
+			}
+			n += live.Len()
+			k.FuncsSeen[g] = true
+			empty := eng.CondEdgesP(g, func(v ssa.Value) bool {
+				call, ok := v.(*ssa.Call)
+				return ok && eng.CalleeName(call) == "(store/hash.Hash).IsEmpty"
+			}, true)
+			k.OnlyAfter("resolve-at-root-never-live", g, "the live ref resolver is reached only where no noms root was given (root.IsEmpty())", live, 1, empty)
+		}
+		if n < 1 {
+			k.Unknown("resolve-at-root-never-live", eng.Name(fn), "live GetHashForRefStr calls", "none found (floor 1)")
 		}
 	}
 }
